@@ -59,6 +59,7 @@ func (aux *Aux) Call(gf slip.Object, s *slip.Scope, args slip.List, depth int) s
 	if aux.defaultCaller != nil {
 		caller := aux.defaultCaller
 		aux.moo.Unlock()
+		slip.VerifPoint("generic.call.default")
 		return caller.Call(s, args, depth)
 	}
 	// Any further argument checking gets tricky as optinal could be keywords
@@ -71,6 +72,7 @@ func (aux *Aux) Call(gf slip.Object, s *slip.Scope, args slip.List, depth int) s
 		}
 	}
 	aux.moo.Unlock()
+	slip.VerifPoint("generic.call.after-lookup")
 	if meth != nil {
 		return meth.Call(s, args, depth)
 	}
@@ -82,6 +84,7 @@ func (aux *Aux) Call(gf slip.Object, s *slip.Scope, args slip.List, depth int) s
 
 // AddMethod adds a method to the Aux.
 func (aux *Aux) AddMethod(key string, method *slip.Method) {
+	slip.VerifPoint("generic.addmethod")
 	aux.moo.Lock()
 	aux.methods[key] = method
 	if 0 < len(aux.cache) {
